@@ -1702,7 +1702,7 @@ def unit7_witnesses(ctx):
     """the points of Props/C01Payload3.lean replayed on the real code"""
     IR = _IR()
     S, V6 = IR.SliceV6, IR.SlicesV6
-    # repaired by 588bcfb: the speculative descriptor read ran out of data (IOError was not caught)
+    # repaired by fa560d5: the speculative descriptor read ran out of data (IOError was not caught)
     x = V6(items=[S(slice_id=1), S(slice_id=16, group_id=1000), S(slice_id=3)])
     w = py_write(x)
     r = py_read(V6, w[1]) if w[0] == "ok" else ("err", "write")
@@ -1788,7 +1788,7 @@ def _run(ctx):
         "resources_refine_deep. Correspondence: typed resources generated for every registered id x class instance and harvested from the "
         "fixtures; whole fixture documents parsed with typed resources (quick: a seeded sample of 10 below 30 kB, padding 4; thorough: all, "
         "padding 1/2/4) through PSD.write / PSD.read vs the model.",
-        "Finding of unit 7, repaired (repo commit 588bcfb): the proof of slices_v6_roundtrip_at_end forced 'a slice without descriptor is not "
+        "Finding of unit 7, repaired (repo commit fa560d5): the proof of slices_v6_roundtrip_at_end forced 'a slice without descriptor is not "
         "followed by a slice whose id is 16' (SlicesV6.chainOK). On the real code SlicesV6(items=[SliceV6(slice_id=1), SliceV6(slice_id=16, "
         "group_id=1000), SliceV6(slice_id=3)]) was written and then failed to load: SliceV6.read undid its speculative DescriptorBlock.read on "
         "ValueError only, the read ran out of data (IOError). The reader now recovers from IOError too (witnesses "
